@@ -204,6 +204,29 @@ def run(ctx):
             d = inspect.signature(fn).parameters['limit'].default
             if d != 1000:
                 ctx.counterexample('default limit of %s is %r, not 1000' % (name, d), {'api': name, 'default': d})
+        # WcMatch: the folder-exclude pattern is subject to the limit like the file pattern, whatever the other flags say
+        nw = 0
+        for L in (1, 2, 5, 32, 1000):
+            for wfl in (0, WMm.RECURSIVE, WMm.DIRPATHNAME, WMm.RECURSIVE | WMm.HIDDEN, WMm.FILEPATHNAME | WMm.SYMLINKS):
+                for which in ('exclude', 'file'):
+                    for count, expect in ((L, False), (L + 1, True), (L * 50 + 7, True)):
+                        nw += 1
+                        big = 'd{1..%d}' % count
+                        args = ('*.txt', big) if which == 'exclude' else (big, None)
+                        kw = {} if L == 1000 and nw % 2 else {'limit': L}
+                        try:
+                            WMm.WcMatch(tmp, *args, flags=wfl | WMm.BRACE, **kw).match()
+                            raised = False
+                        except Exception as e:
+                            raised = type(e).__name__ == 'PatternLimitException'
+                            if not raised:
+                                ctx.counterexample('WcMatch(%s pattern %r, limit=%s) raised %s' % (which, big, L, type(e).__name__), {'limit': L, 'which': which})
+                                continue
+                        if raised != expect:
+                            ctx.counterexample('WcMatch(%s pattern with %d brace expansions, limit=%s, flags=%#x): %s' % (
+                                which, count, 'default' if not kw else L, wfl, 'PatternLimitException' if raised else 'no exception'),
+                                {'which': which, 'count': count, 'limit': L, 'flags': wfl, 'expected_raise': expect})
+        ctx.counted('WcMatch file / folder-exclude pattern limits', nw, nw // 2, [{'exclude': 'd{1..6}', 'limit': 5}])
     finally:
         shutil.rmtree(tmp, ignore_errors=True)
     return ctx.finish(RULE)
